@@ -358,6 +358,57 @@ _INSTANCES = {}
 _EXCLUDE = set()
 
 
+def _unmemo_block(stmts):
+    """Memo transparency.  `if K not in D: D[K] = E` followed in the same block by reads of D[K] computes E and remembers it; what the
+    function returns / uses is E.  The pattern is rewritten to `tmp = E` and the reads to `tmp`, so that rules which decide WHAT is
+    computed see through a cache (whether the cache is keyed soundly is decided elsewhere: K1 / I8 / U7)."""
+    out = []
+    i = 0
+    while i < len(stmts):
+        st = stmts[i]
+        for fld in ("body", "orelse", "finalbody"):
+            blk = getattr(st, fld, None)
+            if isinstance(blk, list) and blk and isinstance(blk[0], ast.stmt):
+                setattr(st, fld, _unmemo_block(blk))
+        hit = None
+        if isinstance(st, ast.If) and not st.orelse and len(st.body) == 1 and isinstance(st.body[0], ast.Assign) \
+                and len(st.body[0].targets) == 1 and isinstance(st.body[0].targets[0], ast.Subscript):
+            t = st.test
+            neg = isinstance(t, ast.UnaryOp) and isinstance(t.op, ast.Not)
+            c = t.operand if neg else t
+            if isinstance(c, ast.Compare) and len(c.ops) == 1 and (isinstance(c.ops[0], ast.NotIn) != neg) and isinstance(c.ops[0], (ast.In, ast.NotIn)):
+                sub = st.body[0].targets[0]
+                if ast.dump(sub.value) == ast.dump(c.comparators[0]) and ast.dump(sub.slice) == ast.dump(c.left):
+                    hit = (sub, st.body[0].value)
+        if hit is None:
+            out.append(st)
+            i += 1
+            continue
+        sub, value = hit
+        _counter[0] += 1
+        tmp = "memo__i%d" % _counter[0]
+        want = ast.dump(ast.Subscript(value=sub.value, slice=sub.slice, ctx=ast.Load()))
+        rest = stmts[i + 1:]
+        used = [False]
+
+        class _R(ast.NodeTransformer):
+            def visit_Subscript(self, n):
+                self.generic_visit(n)
+                if isinstance(n.ctx, ast.Load) and ast.dump(ast.Subscript(value=n.value, slice=n.slice, ctx=ast.Load())) == want:
+                    used[0] = True
+                    return ast.copy_location(ast.Name(id=tmp, ctx=ast.Load()), n)
+                return n
+        new_rest = [_R().visit(x) for x in rest]
+        if not used[0]:
+            out.append(st)
+            i += 1
+            continue
+        out.append(ast.copy_location(ast.Assign(targets=[ast.Name(id=tmp, ctx=ast.Store())], value=value), st))
+        stmts = stmts[:i + 1] + new_rest
+        i += 1
+    return out
+
+
 def _restore_names(fn):
     """A helper's local `x` becomes `x__i<N>` when the helper is expanded.  Where that was not needed to keep things apart - the host
     function has no name `x` and no other expansion brought an `x` of its own - the local gets its plain name back, so that a function
@@ -405,6 +456,7 @@ def _inlined(prog, func, depth=2, owner_override=None):
                     inst.add(st.targets[0].id)
         _INSTANCES[id(owner_cls)] = inst
     new = clone(func)
+    new.body = _unmemo_block(new.body)
     new.body = _rewrite_block(prog, new.body, owner_cls, module, depth)
     _restore_names(new)
     ast.fix_missing_locations(new)
